@@ -544,6 +544,8 @@ pub struct RunResult {
     pub final_bytes: Vec<u8>,
     /// findings whose key is listed as known: the history continues past them
     pub tolerated: Vec<(usize, Finding)>,
+    /// open/read/write events of the last regeneration (for aiming faults)
+    pub last_events: Vec<u32>,
 }
 
 thread_local! {
@@ -563,6 +565,7 @@ pub fn run_case(env: &Env, case: &Case, m: &Model, st: &mut Stats) -> RunResult 
     // index of the last regeneration that returned Ok with no failing fault
     let mut last_clean_regen: Option<usize> = None;
     let mut tolerated: Vec<(usize, Finding)> = vec![];
+    let mut last_events: Vec<u32> = vec![];
     for (si, step) in case.steps.iter().enumerate() {
         match step {
             Step::Edit { bytes, .. } => cur = Some(bytes.clone()),
@@ -584,6 +587,7 @@ pub fn run_case(env: &Env, case: &Case, m: &Model, st: &mut Stats) -> RunResult 
                 }
                 let failing_fired = o.stat.errno > 0;
                 let after = o.file(&aname);
+                last_events = o.events.iter().filter(|e| e.op == OP_OPEN || e.op == OP_READ || e.op == crate::shim::OP_WRITE).map(|e| e.seq).collect();
                 // `Path::exists()` answers "no" when stat fails, so a failing
                 // stat makes the compiler treat the actions file as absent and
                 // start from scratch.  C18 does not quantify over faults
@@ -603,7 +607,7 @@ pub fn run_case(env: &Env, case: &Case, m: &Model, st: &mut Stats) -> RunResult 
                 match &o.class {
                     Class::Panic(_) | Class::Abort(_) | Class::Timeout => {
                         // C16's business; the history cannot continue
-                        return RunResult { tolerated: std::mem::take(&mut tolerated), finding: None, final_bytes: cur.unwrap_or_default() };
+                        return RunResult { last_events: vec![], tolerated: std::mem::take(&mut tolerated), finding: None, final_bytes: cur.unwrap_or_default() };
                     }
                     Class::Err(msg) => {
                         st.regens_err += 1;
@@ -632,6 +636,7 @@ pub fn run_case(env: &Env, case: &Case, m: &Model, st: &mut Stats) -> RunResult 
                                 continue;
                             }
                             return RunResult {
+                                last_events: vec![],
                                 tolerated: std::mem::take(&mut tolerated),
                                 finding: Some((si, Finding { rule: "K7", what: format!("regeneration returned Err ({}) but the actions file changed", msg.chars().take(100).collect::<String>()), pattern: "err-but-changed".into() })),
                                 final_bytes: after.unwrap_or_default(),
@@ -642,13 +647,13 @@ pub fn run_case(env: &Env, case: &Case, m: &Model, st: &mut Stats) -> RunResult 
                         let after = match after {
                             Some(a) => a,
                             None => {
-                                return RunResult { tolerated: std::mem::take(&mut tolerated), finding: Some((si, Finding { rule: "K1", what: "regeneration returned Ok but there is no actions file".into(), pattern: "no-file".into() })), final_bytes: vec![] };
+                                return RunResult { last_events: vec![], tolerated: std::mem::take(&mut tolerated), finding: Some((si, Finding { rule: "K1", what: "regeneration returned Ok but there is no actions file".into(), pattern: "no-file".into() })), final_bytes: vec![] };
                             }
                         };
                         if *force {
                             bump(&mut st.rules_checked, "K6");
                             if after != m.golden {
-                                return RunResult { tolerated: std::mem::take(&mut tolerated), finding: Some((si, Finding { rule: "K6", what: "forced regeneration differs from a fresh generation".into(), pattern: "force-not-golden".into() })), final_bytes: after };
+                                return RunResult { last_events: vec![], tolerated: std::mem::take(&mut tolerated), finding: Some((si, Finding { rule: "K6", what: "forced regeneration differs from a fresh generation".into(), pattern: "force-not-golden".into() })), final_bytes: after };
                             }
                         } else if failing_fired {
                             // a failing fault that the compiler absorbed (e.g.
@@ -659,7 +664,7 @@ pub fn run_case(env: &Env, case: &Case, m: &Model, st: &mut Stats) -> RunResult 
                                     if tolerated_key(&f) {
                                         tolerated.push((si, f));
                                     } else {
-                                        return RunResult { tolerated: std::mem::take(&mut tolerated), finding: Some((si, f)), final_bytes: after };
+                                        return RunResult { last_events: vec![], tolerated: std::mem::take(&mut tolerated), finding: Some((si, f)), final_bytes: after };
                                     }
                                 }
                             }
@@ -671,7 +676,7 @@ pub fn run_case(env: &Env, case: &Case, m: &Model, st: &mut Stats) -> RunResult 
                                         if tolerated_key(&f) {
                                             tolerated.push((si, f));
                                         } else {
-                                            return RunResult { tolerated: std::mem::take(&mut tolerated), finding: Some((si, f)), final_bytes: after };
+                                            return RunResult { last_events: vec![], tolerated: std::mem::take(&mut tolerated), finding: Some((si, f)), final_bytes: after };
                                         }
                                     }
                                     // K5 idempotence: the previous step was a
@@ -680,14 +685,14 @@ pub fn run_case(env: &Env, case: &Case, m: &Model, st: &mut Stats) -> RunResult 
                                     if si > 0 && last_clean_regen == Some(si - 1) {
                                         bump(&mut st.rules_checked, "K5");
                                         if after != *p {
-                                            return RunResult { tolerated: std::mem::take(&mut tolerated), finding: Some((si, Finding { rule: "K5", what: "a second regeneration changed the file".into(), pattern: "not-idempotent".into() })), final_bytes: after };
+                                            return RunResult { last_events: vec![], tolerated: std::mem::take(&mut tolerated), finding: Some((si, Finding { rule: "K5", what: "a second regeneration changed the file".into(), pattern: "not-idempotent".into() })), final_bytes: after };
                                         }
                                     }
                                 }
                                 None => {
                                     bump(&mut st.rules_checked, "K6");
                                     if after != m.golden {
-                                        return RunResult { tolerated: std::mem::take(&mut tolerated), finding: Some((si, Finding { rule: "K6", what: "generation into an empty directory differs from the golden bytes".into(), pattern: "fresh-not-golden".into() })), final_bytes: after };
+                                        return RunResult { last_events: vec![], tolerated: std::mem::take(&mut tolerated), finding: Some((si, Finding { rule: "K6", what: "generation into an empty directory differs from the golden bytes".into(), pattern: "fresh-not-golden".into() })), final_bytes: after };
                                     }
                                 }
                             }
@@ -701,7 +706,7 @@ pub fn run_case(env: &Env, case: &Case, m: &Model, st: &mut Stats) -> RunResult 
             }
         }
     }
-    RunResult { tolerated, finding: None, final_bytes: cur.unwrap_or_default() }
+    RunResult { last_events, tolerated, finding: None, final_bytes: cur.unwrap_or_default() }
 }
 
 pub struct Ctx {
@@ -757,7 +762,14 @@ pub fn gen_and_run(env: &Env, ctx: &Ctx, stream: u64, idx: u64, with_faults: boo
                 let force = rng.chance(1, 6);
                 let mut faults = vec![];
                 if with_faults && rng.chance(1, 2) {
-                    let event = rng.below(20);
+                    // aim at an event of this very regeneration: probe it once
+                    // fault-free and pick among the events the kind applies to
+                    let mut probe = case.clone();
+                    probe.steps.push(Step::Regen { force, faults: vec![] });
+                    let pr = run_case(env, &probe, &m, &mut Stats::default());
+                    st.compiles += 1;
+                    let ev = pr.last_events;
+                    let event = if ev.is_empty() { rng.below(20) } else { ev[rng.usize(ev.len())] as u64 };
                     match rng.below(3) {
                         0 => faults.push(Fault { event, kind: F_EINTR, arg: 0 }),
                         1 => faults.push(Fault { event, kind: F_SHORT, arg: 1 + rng.below(200) as i32 }),
